@@ -163,6 +163,26 @@ class Iter:
         return r
 
 
+class LazyIter:
+    """an iterator that produces its items on demand by calling a closure (std::iter::repeat_with), optionally limited by take(n)"""
+
+    def __init__(self, mini, clo, limit=None):
+        self.mini, self.clo, self.limit, self.count = mini, clo, limit, 0
+
+    def next(self):
+        if self.limit is not None and self.count >= self.limit:
+            return "None"
+        self.count += 1
+        return ("Some", self.mini.apply(self.clo, []))
+
+    def __iter__(self):
+        while True:
+            v = self.next()
+            if v == "None":
+                return
+            yield v[1]
+
+
 class BTree:
     """BTreeMap with concrete integer keys"""
     def __init__(self):
@@ -793,6 +813,22 @@ class Mini:
                     env.pop()
             raise Unsupported(f"no arm matches {v!r}")
         if t == "while":
+            c_ = H.strip(n[1])
+            if H.tag(c_) == "letexpr":
+                # while let PAT = e { body }
+                while True:
+                    env.append({})
+                    try:
+                        if not self.bind(c_[1], self.ev(c_[2], env), env):
+                            break
+                        self.ev(n[2], env)
+                    except _Break:
+                        break
+                    except _Continue:
+                        continue
+                    finally:
+                        env.pop()
+                return ()
             while self.truth(self.ev(n[1], env)):
                 try:
                     self.ev(n[2], env)
@@ -925,6 +961,8 @@ class Mini:
             return list(v[1])
         if isinstance(v, Iter):
             return v.rest()
+        if isinstance(v, LazyIter):
+            return v  # consumed item by item: a `break` leaves the rest unproduced
         if isinstance(v, tuple) and v and v[0] == "itermut":
             return [Ref(v[1], i) for i in range(len(v[1]))]
         if isinstance(v, BTree):
@@ -995,6 +1033,8 @@ class Mini:
             return ("iter", [args[0]])
         if p in ("std::iter::sources::empty::empty", "std::iter::empty"):
             return ("iter", [])
+        if p in ("std::iter::sources::repeat_with::repeat_with", "std::iter::repeat_with") and len(args) == 1:
+            return LazyIter(self, args[0])
         if last == "new" and "NonZero" in p and len(args) == 1 and isinstance(args[0], int):
             return ("Some", args[0]) if args[0] != 0 else "None"
         if last == "new" and "NonZero" in p and len(args) == 1 and isinstance(args[0], (Wide, Tok)):
@@ -1244,6 +1284,25 @@ class Mini:
             return recv[1] <= args[0] <= recv[2] if recv[0] == "rangeincl" else recv[1] <= args[0] < recv[2]
         if nm in ("to_bits", "from_bits") and not args and p.startswith(("std::f32::<impl f32>::", "std::f64::<impl f64>::", "core::f32::<impl f32>::")):
             return recv  # a float and its bit image are the same abstract word
+        if isinstance(recv, LazyIter):
+            if nm == "take" and len(args) == 1 and isinstance(args[0], int):
+                recv.limit = args[0] if recv.limit is None else min(recv.limit, args[0])
+                return recv
+            if nm == "next" and not args:
+                return recv.next()
+            if nm in ("by_ref", "into_iter", "iter", "fuse"):
+                return recv
+            raise Unsupported(f"{nm} on a lazy iterator")
+        if nm == "transpose" and not args and (recv == "None" or (isinstance(recv, tuple) and recv and recv[0] == "Some")):
+            # Option<Result<T, E>> -> Result<Option<T>, E>
+            if recv == "None":
+                return ("Ok", "None")
+            inner = recv[1]
+            if isinstance(inner, tuple) and inner and inner[0] == "Ok":
+                return ("Ok", ("Some", inner[1]))
+            if isinstance(inner, tuple) and inner and inner[0] == "Err":
+                return inner
+            raise Unsupported("transpose of a non-Result")
         if nm == "get" and not args and "NonZero" in p:
             return recv  # NonZero<T>::get: the integer itself
         if nm in ("get", "first", "last") and isinstance(recv, list) and p.startswith(("std::slice::<impl [T]>::", "std::vec::Vec")):
